@@ -152,6 +152,8 @@ impl Array {
                     }
                 });
 
+                // view the delta with every summed dimension, rather than the single flattened dimension
+                let x = x.reshape(target_clone.clone());
                 vec![Some(Array::sliced_op(
                     vec![&x],
                     &op,
